@@ -1269,6 +1269,32 @@ func oracle(root string, sc *ck.Script, before, after *sim) []failure {
 			} else if fi.Size() != m.Size {
 				add("index-dangling", "index.json entry %s has size %d, the blob %d", m.Digest, m.Size, fi.Size())
 			}
+			// the descriptor written for the entry: the media type the blob was pushed / tagged with
+			// ("" only through a digest+size-only Tag), and no other annotation than the reference
+			// name of a named entry (saveIndex / deleteAnnotationRefName)
+			if id, ok := byHex[m.Digest[strings.IndexByte(m.Digest, ':')+1:]]; ok {
+				if want := sc.Blob(id).MediaType; m.MediaType != want && m.MediaType != "" && m.MediaType != "application/octet-stream" {
+					add("index-entry-descriptor", "index.json entry of blob %d has media type %q, pushed as %q", id, m.MediaType, want)
+				}
+			}
+			for k := range m.Annotations {
+				if k != "org.opencontainers.image.ref.name" {
+					add("index-entry-descriptor", "index.json entry %s carries the annotation %q", m.Digest, k)
+				}
+			}
+			if r, ok := m.Annotations["org.opencontainers.image.ref.name"]; ok && r == "" {
+				add("index-entry-descriptor", "index.json entry %s has an empty reference name", m.Digest)
+			}
+		}
+		// one entry per reference name
+		seen := map[string]string{}
+		for _, m := range idx.Manifests {
+			if r, ok := m.Annotations["org.opencontainers.image.ref.name"]; ok {
+				if prev, dup := seen[r]; dup {
+					add("index-entry-descriptor", "reference %q appears twice in index.json (%s and %s)", r, prev, m.Digest)
+				}
+				seen[r] = m.Digest
+			}
 		}
 	}
 	// the entries of index.json (named and digest-only) are those before or those after; a
